@@ -8,7 +8,7 @@ one() {
   t=$(mktemp -d /tmp/rf.XXXXXX)
   cp /repo/*.go /repo/go.mod $t/
   if ! (cd $t && patch -p1 -s < $d/patch.diff >/dev/null 2>&1); then echo "== $d: PATCH DOES NOT APPLY"; rm -rf $t; exit 0; fi
-  out=$(/verif/bin/dverif list -bad -repo $t 2>&1 | grep -v "cell:Expm1(-zero)" | grep -v "obligations$")
+  out=$(/verif/bin/dverif list -bad -repo $t 2>&1 | grep -v "cell:Expm1(-zero)\|series.expm1.cancel" | grep -v "obligations$")
   n=$(echo -n "$out" | grep -c .)
   { echo "== $d: $n alarms"; [ $n -gt 0 ] && echo "$out" | cut -c1-${W:-260} | head -${SHOW:-4}; } 
   rm -rf $t
